@@ -23,6 +23,7 @@ func init() {
 	add("C01", ruleKmvConstantIndexFromBx, ruleIfJumpOverElseUnconditional)
 	add("C12", ruleNoStaleRegistryArray)
 	add("C10", ruleNoStaleRegistryArray)
+	add("C11", ruleContextAttachedByTheHostOnly)
 }
 
 // dominatesAllReturns: the instruction lies on every path from the entry to every live return.
@@ -244,4 +245,35 @@ func ruleNoStaleRegistryArray(c *Ctx) {
 	}
 	c.Sites += n
 	c.check(n >= 20, R, "stale-array", "-", fmt.Sprintf("%d uses of a loaded registry.array examined, none across a growing call", n), "uses of registry.array outside the registry's methods not found")
+}
+
+// ruleContextAttachedByTheHostOnly: C11 "until the context is done, attaching it does not change the
+// script's behaviour" — and detaching or replacing it takes effect for every thread as the host set it:
+// SetContext and RemoveContext are host entry points; nothing inside the interpreter calls them (a
+// library function that lets a coroutine adopt its resumer's context makes the adoption sticky: after
+// that context is cancelled and replaced, the coroutine still fails with 'context canceled').
+func ruleContextAttachedByTheHostOnly(c *Ctx) {
+	const R = "R11-threadctx"
+	p := c.P
+	n := 0
+	for _, name := range []string{"(*LState).SetContext", "(*LState).RemoveContext"} {
+		target := c.need(R, "lua", name)
+		if target == nil {
+			continue
+		}
+		n++
+		who := ""
+		for _, fn := range p.srcFuncs {
+			if fn.Pkg == nil || fn.Pkg.Pkg.Path() != luaPath || fn.Blocks == nil {
+				continue
+			}
+			if len(callsTo(fn, target)) > 0 {
+				who = fname(fn)
+			}
+		}
+		c.Sites++
+		c.check(who == "", R, target.Name()+":called-by-the-host-only", p.pos(target.Pos()), "no function of the interpreter attaches or removes a context",
+			who+" calls "+target.Name()+": a thread's context is changed from inside the interpreter, so what the host attached, replaced or removed is not what the thread polls (a coroutine that adopted a cancelled context keeps failing after the host attached a fresh one)")
+	}
+	c.check(n == 2, R, "context-entry-points", "-", "SetContext and RemoveContext found", "SetContext / RemoveContext not found")
 }
